@@ -10,9 +10,9 @@ namespace Rpgp.Armor
 /-- a key the header-line grammar can carry: non-empty, one line, no `": "` inside, UTF-8 -/
 def keyOk (k : Bytes) : Bool := !k.isEmpty && noCrLf k && noColonSp k && validUtf8 k
 
-/-- a value the reader as it is returns unchanged: one line, UTF-8, **not ending in `:`** (a value
-ending in `:` is representable in the format but is mis-read by `key_value_pair`, finding D10c) -/
-def valOk (v : Bytes) : Bool := noCrLf v && (v.getLast? != some COLON) && validUtf8 v
+/-- a value the header-line grammar can carry: one line of UTF-8 — anything else goes, including
+`": "` inside, a trailing `:`, trailing blanks, the empty string -/
+def valOk (v : Bytes) : Bool := noCrLf v && validUtf8 v
 
 /-- keys strictly increasing (what iterating a `BTreeMap` yields) -/
 def pairwiseKeys : Headers → Bool
@@ -64,71 +64,50 @@ theorem armorHead_eq (t : BlockType) (h : Headers) : armorHead t h = headText []
 
 /-! ## one header line -/
 
-theorem kvKey_err_of_noColon (s : Bytes) (h : ∀ b ∈ s, b ≠ COLON) : kvKey s = .err := by
-  simp [kvKey, takeUntil1C, splitOnSub_colon_none _ s h, PR.orElse]
+theorem kvSplit_line (k v : Bytes) (hk0 : k ≠ []) (hk2 : noColonSp k = true) :
+    kvSplit (k ++ COLON :: SP :: v) = (k, v) := by
+  simp [kvSplit, splitOnSub_colonSp k v hk2]
 
-theorem kvPair_err_of_noColon (s : Bytes) (h : ∀ b ∈ s, b ≠ COLON) : kvPair s = .err := by
-  simp [kvPair, kvKey_err_of_noColon s h]
-
-theorem kvPair_line (k v nl T : Bytes) (hk : keyOk k = true) (hv : valOk v = true) (hnl : IsNl nl)
-    (hT : colonNlFree T = true) :
+/-- **one `Key: Value` line**: any key of the class `keyOk`, *any* one-line UTF-8 value, LF or CRLF,
+whatever follows -/
+theorem kvPair_line (k v nl T : Bytes) (hk : keyOk k = true) (hv : valOk v = true) (hnl : IsNl nl) :
     kvPair (k ++ COLON :: SP :: (v ++ nl ++ T)) = .ok (k, v) T := by
-  simp only [keyOk, valOk, Bool.and_eq_true, Bool.not_eq_true', bne_iff_ne, ne_eq] at hk hv
+  simp only [keyOk, valOk, Bool.and_eq_true, Bool.not_eq_true'] at hk hv
   obtain ⟨⟨⟨hk0, hk1⟩, hk2⟩, hk3⟩ := hk
-  obtain ⟨⟨hv1, hv2⟩, hv3⟩ := hv
-  -- the whole remaining text has no ':' followed by a line break
-  have hnlT : colonNlFree (nl ++ T) = true := by
-    apply colonNlFree_append _ _ _ hT
-    · left; rcases hnl with rfl | rfl <;> decide
-    · rcases hnl with rfl | rfl <;> decide
-  have hvT : colonNlFree (v ++ (nl ++ T)) = true :=
-    colonNlFree_append _ _ (colonNlFree_of_noCrLf _ (noCrLf_mem _ hv1)) hnlT (Or.inl hv2)
-  have hcs : colonNlFree ([COLON, SP] ++ (v ++ (nl ++ T))) = true :=
-    colonNlFree_append _ _ (by decide) hvT (Or.inl (by decide))
-  have hall : colonNlFree (k ++ ([COLON, SP] ++ (v ++ (nl ++ T)))) = true :=
-    colonNlFree_append _ _ (colonNlFree_of_noCrLf _ (noCrLf_mem _ hk1)) hcs (Or.inr (by simp [COLON, LF, CR]))
-  have etext : k ++ COLON :: SP :: (v ++ nl ++ T) = k ++ ([COLON, SP] ++ (v ++ (nl ++ T))) := by simp
-  have hkey : kvKey (k ++ COLON :: SP :: (v ++ nl ++ T)) = .ok k (COLON :: SP :: (v ++ nl ++ T)) := by
-    have h1 := splitOnSub_colonCrLf_none _ hall
-    have h2 := splitOnSub_colonLf_none _ hall
-    have h3 := splitOnSub_colonSp k (v ++ nl ++ T) hk2
-    rw [← etext] at h1 h2
-    cases k with
-    | nil => simp at hk0
-    | cons c k' =>
-      simp only [kvKey, takeUntil1C, h1, h2, h3, PR.orElse, hk3, if_true]
-  simp only [kvPair, hkey, tagS, if_true]
-  have hval := notLineEnding_value v nl T hv1 hnl
-  simp only [hval, hv3, if_true, lineEnding_nl nl T hnl]
+  obtain ⟨hv1, hv3⟩ := hv
+  have hkne : k ≠ [] := by intro e; subst e; simp at hk0
+  have hline : noCrLf (k ++ COLON :: SP :: v) = true := by
+    simp only [noCrLf, List.all_append, List.all_cons, Bool.and_eq_true] at hk1 hv1 ⊢
+    exact ⟨hk1, by decide, by decide, hv1⟩
+  have hutf : validUtf8 (k ++ COLON :: SP :: v) = true :=
+    validUtf8_append _ k _ (Nat.le_refl _) hk3
+      (validUtf8_append _ [COLON, SP] v (Nat.le_refl _) (by decide) hv3)
+  have e : k ++ COLON :: SP :: (v ++ nl ++ T) = (k ++ COLON :: SP :: v) ++ nl ++ T := by simp
+  rw [e]
+  simp only [kvPair, notLineEnding_value _ nl T hline hnl, hutf, if_true, lineEnding_nl nl T hnl,
+    kvSplit_line k v hkne hk2]
+  simp [hkne]
+
+/-- a separator line (blanks and tabs only) is not a header line -/
+theorem kvPair_blank (ws nl X : Bytes) (hws : ∀ b ∈ ws, b = SP ∨ b = TAB) (hnl : IsNl nl) :
+    kvPair (ws ++ nl ++ X) = .err := by
+  have hline : noCrLf ws = true := by
+    simp only [noCrLf, List.all_eq_true]
+    intro b hb; rcases hws b hb with rfl | rfl <;> decide
+  have hutf : validUtf8 ws = true :=
+    validUtf8_ascii ws (fun b hb => by rcases hws b hb with rfl | rfl <;> decide)
+  have hnc : ∀ b ∈ ws, b ≠ COLON := fun b hb => by rcases hws b hb with rfl | rfl <;> decide
+  have hsplit : kvSplit ws = ([], []) := by
+    have hlast : ws.getLast? ≠ some COLON := by
+      intro h
+      exact hnc COLON (List.mem_of_getLast? h) rfl
+    simp [kvSplit, splitOnSub_colon_none [SP] ws hnc, hlast]
+  simp only [kvPair, notLineEnding_value ws nl X hline hnl, hutf, if_true, lineEnding_nl nl X hnl, hsplit]
+  simp
 
 /-! ## all header lines -/
 
-theorem colonNlFree_pairLines (nl : Bytes) (hnl : IsNl nl) (Y : Bytes) (hY : colonNlFree Y = true) :
-    ∀ ps : List (Bytes × Bytes), (∀ kv ∈ ps, keyOk kv.1 = true ∧ valOk kv.2 = true) →
-      colonNlFree (pairLines nl ps ++ Y) = true := by
-  intro ps
-  induction ps with
-  | nil => intro _; simpa [pairLines] using hY
-  | cons kv r ih =>
-    intro h
-    have hr := ih (fun x hx => h x (by simp [hx]))
-    obtain ⟨hk, hv⟩ := h kv (by simp)
-    simp only [keyOk, valOk, Bool.and_eq_true, Bool.not_eq_true', bne_iff_ne, ne_eq] at hk hv
-    obtain ⟨⟨⟨_, hk1⟩, _⟩, _⟩ := hk
-    obtain ⟨⟨hv1, hv2⟩, _⟩ := hv
-    have e : pairLines nl (kv :: r) ++ Y = kv.1 ++ ([COLON, SP] ++ (kv.2 ++ (nl ++ (pairLines nl r ++ Y)))) := by
-      simp [pairLines]
-    rw [e]
-    have hnlT : colonNlFree (nl ++ (pairLines nl r ++ Y)) = true := by
-      apply colonNlFree_append _ _ _ hr
-      · left; rcases hnl with rfl | rfl <;> decide
-      · rcases hnl with rfl | rfl <;> decide
-    exact colonNlFree_append _ _ (colonNlFree_of_noCrLf _ (noCrLf_mem _ hk1))
-      (colonNlFree_append _ _ (by decide)
-        (colonNlFree_append _ _ (colonNlFree_of_noCrLf _ (noCrLf_mem _ hv1)) hnlT (Or.inl hv2))
-        (Or.inl (by decide))) (Or.inr (by simp [COLON, LF, CR]))
-
-theorem kvPairs_lines (nl : Bytes) (hnl : IsNl nl) (Y : Bytes) (hY : ∀ b ∈ Y, b ≠ COLON) :
+theorem kvPairs_lines (nl : Bytes) (hnl : IsNl nl) (Y : Bytes) (hY : kvPair Y = .err) :
     ∀ (ps : List (Bytes × Bytes)) (fuel : Nat), (∀ kv ∈ ps, keyOk kv.1 = true ∧ valOk kv.2 = true) →
       ps.length ≤ fuel → kvPairs fuel (pairLines nl ps ++ Y) = (ps, Y) := by
   intro ps
@@ -137,18 +116,17 @@ theorem kvPairs_lines (nl : Bytes) (hnl : IsNl nl) (Y : Bytes) (hY : ∀ b ∈ Y
     intro fuel _ _
     cases fuel with
     | zero => rfl
-    | succ f => simp [kvPairs, pairLines, kvPair_err_of_noColon Y hY, PR.complete]
+    | succ f => simp [kvPairs, pairLines, hY, PR.complete]
   | cons kv r ih =>
     intro fuel h hf
     cases fuel with
     | zero => simp at hf
     | succ f =>
       obtain ⟨hk, hv⟩ := h kv (by simp)
-      have hT := colonNlFree_pairLines nl hnl Y (colonNlFree_of_noColon Y hY) r (fun x hx => h x (by simp [hx]))
       have e : pairLines nl (kv :: r) ++ Y = kv.1 ++ COLON :: SP :: (kv.2 ++ nl ++ (pairLines nl r ++ Y)) := by
         simp [pairLines]
       rw [e]
-      simp only [kvPairs, kvPair_line kv.1 kv.2 nl _ hk hv hnl hT, PR.complete]
+      simp only [kvPairs, kvPair_line kv.1 kv.2 nl _ hk hv hnl, PR.complete]
       rw [ih f (fun x hx => h x (by simp [hx])) (by simp at hf; omega)]
 
 /-! ## rebuilding the map -/
@@ -263,5 +241,237 @@ theorem WFHeaders_pairs (h : Headers) (hw : WFHeaders h = true) :
   · intro kv hkv hnil
     have := (hw.2 kv hkv).1.2
     simp [hnil] at this
+
+/-! ## what the reader can return at all (the class is exact) -/
+
+theorem notLineEnding_noCrLf : ∀ (i l r : Bytes), notLineEnding i = .ok l r → noCrLf l = true := by
+  intro i
+  induction i with
+  | nil => intro l r h; simp [notLineEnding] at h
+  | cons c t ih =>
+    intro l r h
+    simp only [notLineEnding] at h
+    by_cases h1 : c = LF
+    · simp only [h1, if_true, PR.ok.injEq] at h
+      rw [← h.1]; rfl
+    · simp only [h1, if_false] at h
+      by_cases h2 : c = CR
+      · simp only [h2, if_true] at h
+        cases t with
+        | nil => simp at h
+        | cons d t' =>
+          simp only at h
+          by_cases h3 : d = LF
+          · simp only [h3, if_true, PR.ok.injEq] at h
+            rw [← h.1]; rfl
+          · simp [h3] at h
+      · simp only [h2, if_false] at h
+        cases hr : notLineEnding t with
+        | ok v rest =>
+          simp only [hr, PR.ok.injEq] at h
+          have := ih v rest hr
+          rw [← h.1]
+          simp only [noCrLf, List.all_cons, Bool.and_eq_true, bne_iff_ne, ne_eq] at this ⊢
+          exact ⟨⟨h2, h1⟩, this⟩
+        | inc => simp [hr] at h
+        | err => simp [hr] at h
+
+theorem noColonSp_cons (a : Byte) (s : Bytes) :
+    noColonSp (a :: s) = (!(a == COLON && s.head? == some SP) && noColonSp s) := by
+  cases s with
+  | nil => simp [noColonSp]
+  | cons b r => simp [noColonSp]
+
+/-- `split_once`: the part before the first `": "` contains none, and the pieces reassemble -/
+theorem splitOnSub_colonSp_spec : ∀ (l k rest : Bytes), splitOnSub [COLON, SP] l = some (k, rest) →
+    noColonSp k = true ∧ (∃ v, rest = COLON :: SP :: v ∧ l = k ++ COLON :: SP :: v) := by
+  intro l
+  induction l with
+  | nil => intro k rest h; simp [splitOnSub] at h
+  | cons c t ih =>
+    intro k rest h
+    by_cases hp : [COLON, SP].isPrefixOf (c :: t) = true
+    · simp only [splitOnSub, hp, if_true, Option.some.injEq, Prod.mk.injEq] at h
+      obtain ⟨rfl, rfl⟩ := h
+      refine ⟨rfl, ?_⟩
+      cases t with
+      | nil => simp [List.isPrefixOf] at hp
+      | cons d t' =>
+        simp only [List.isPrefixOf, Bool.and_eq_true, beq_iff_eq, Bool.and_true] at hp
+        exact ⟨t', by rw [← hp.1, ← hp.2], by rw [← hp.1, ← hp.2]; rfl⟩
+    · have hp' : [COLON, SP].isPrefixOf (c :: t) = false := Bool.eq_false_iff.mpr hp
+      rw [splitOnSub_cons_ne _ _ _ hp'] at h
+      cases hs : splitOnSub [COLON, SP] t with
+      | none => simp [hs] at h
+      | some ab =>
+        obtain ⟨a, b⟩ := ab
+        simp only [hs, Option.some.injEq, Prod.mk.injEq] at h
+        obtain ⟨rfl, rfl⟩ := h
+        obtain ⟨h1, v, h2, h3⟩ := ih a b hs
+        refine ⟨?_, v, h2, by rw [h3]; rfl⟩
+        rw [noColonSp_cons, h1]
+        simp only [Bool.and_true, Bool.not_eq_true', Bool.and_eq_false_imp, beq_iff_eq]
+        intro hc
+        -- c = ':' and the next byte of `a ++ ": " ++ v` is not a blank, else the prefix test had fired
+        cases a with
+        | nil => simp
+        | cons x a' =>
+          subst hc
+          rw [h3] at hp'
+          simp only [List.cons_append, List.isPrefixOf, beq_self_eq_true, Bool.true_and, Bool.and_true,
+            beq_eq_false_iff_ne, ne_eq] at hp'
+          simp only [List.head?_cons, beq_eq_false_iff_ne, ne_eq, Option.some.injEq]
+          exact fun e => hp' e.symm
+
+theorem splitOnSub_colonSp_none : ∀ (l : Bytes), splitOnSub [COLON, SP] l = none → noColonSp l = true := by
+  intro l
+  induction l with
+  | nil => intro _; rfl
+  | cons c t ih =>
+    intro h
+    by_cases hp : [COLON, SP].isPrefixOf (c :: t) = true
+    · simp [splitOnSub, hp] at h
+    · have hp' : [COLON, SP].isPrefixOf (c :: t) = false := Bool.eq_false_iff.mpr hp
+      rw [splitOnSub_cons_ne _ _ _ hp'] at h
+      cases hs : splitOnSub [COLON, SP] t with
+      | some ab => simp [hs] at h
+      | none =>
+        rw [noColonSp_cons, ih hs]
+        cases t with
+        | nil => simp
+        | cons d t' =>
+          simp only [List.isPrefixOf, Bool.and_true, Bool.and_eq_false_imp, beq_iff_eq] at hp'
+          simp only [List.head?_cons, Bool.and_true, Bool.not_eq_true', Bool.and_eq_false_imp, beq_iff_eq]
+          intro hc
+          have := hp' hc.symm
+          simp only [beq_eq_false_iff_ne, ne_eq, Option.some.injEq] at this ⊢
+          exact fun e => this e.symm
+
+theorem noColonSp_prefix : ∀ (a b : Bytes), noColonSp (a ++ b) = true → noColonSp a = true := by
+  intro a
+  induction a with
+  | nil => intro _ _; rfl
+  | cons x r ih =>
+    intro b h
+    rw [List.cons_append, noColonSp_cons] at h
+    rw [noColonSp_cons]
+    simp only [Bool.and_eq_true, Bool.not_eq_true', Bool.and_eq_false_imp, beq_iff_eq] at h ⊢
+    refine ⟨?_, ih b h.2⟩
+    intro hx
+    have := h.1 hx
+    cases r with
+    | nil => simp
+    | cons y r' => simpa using this
+
+theorem noCrLf_append (a b : Bytes) : noCrLf (a ++ b) = (noCrLf a && noCrLf b) := by
+  simp [noCrLf, List.all_append]
+
+/-- **the class is exact**: whatever `key_value_pair` returns has a non-empty key without line break
+and without `": "`, and a value without line break — so no other key can survive a round trip -/
+theorem kvPair_returns_class (i k v r : Bytes) (h : kvPair i = .ok (k, v) r) :
+    k ≠ [] ∧ noCrLf k = true ∧ noColonSp k = true ∧ noCrLf v = true := by
+  simp only [kvPair] at h
+  cases hl : notLineEnding i with
+  | inc => simp [hl] at h
+  | err => simp [hl] at h
+  | ok line r1 =>
+    have hcr := notLineEnding_noCrLf i line r1 hl
+    simp only [hl] at h
+    by_cases hu : validUtf8 line = true
+    · simp only [hu, if_true] at h
+      cases hle : lineEnding r1 with
+      | inc => simp [hle] at h
+      | err => simp [hle] at h
+      | ok u rest =>
+        simp only [hle] at h
+        by_cases hke : (kvSplit line).1.isEmpty = true
+        · simp [hke] at h
+        · simp only [hke, Bool.false_eq_true, if_false, PR.ok.injEq] at h
+          have hkv : kvSplit line = (k, v) := h.1
+          have hkne : k ≠ [] := by
+            intro e; rw [hkv, e] at hke; simp at hke
+          refine ⟨hkne, ?_⟩
+          unfold kvSplit at hkv
+          cases hs : splitOnSub [COLON, SP] line with
+          | some ab =>
+            obtain ⟨a, b⟩ := ab
+            simp only [hs, Prod.mk.injEq] at hkv
+            obtain ⟨h1, w, h2, h3⟩ := splitOnSub_colonSp_spec line a b hs
+            obtain ⟨rfl, rfl⟩ := hkv
+            rw [h3, noCrLf_append] at hcr
+            simp only [Bool.and_eq_true] at hcr
+            refine ⟨hcr.1, h1, ?_⟩
+            rw [h2]
+            have : noCrLf (COLON :: SP :: w) = true := hcr.2
+            simp only [noCrLf, List.all_cons, Bool.and_eq_true] at this ⊢
+            exact this.2.2
+          | none =>
+            simp only [hs] at hkv
+            by_cases hlast : line.getLast? = some COLON
+            · simp only [hlast, if_true, Prod.mk.injEq] at hkv
+              obtain ⟨rfl, rfl⟩ := hkv
+              have hsplit : line = line.dropLast ++ [COLON] := by
+                obtain ⟨ys, hys⟩ := List.getLast?_eq_some_iff.mp hlast
+                rw [hys]; simp
+              have hnc := splitOnSub_colonSp_none line hs
+              refine ⟨?_, ?_, rfl⟩
+              · rw [hsplit, noCrLf_append] at hcr
+                simp only [Bool.and_eq_true] at hcr
+                exact hcr.1
+              · rw [hsplit] at hnc
+                exact noColonSp_prefix _ _ hnc
+            · simp only [hlast, if_false, Prod.mk.injEq] at hkv
+              exact absurd hkv.1.symm hkne
+    · simp [hu] at h
+
+/-! ## the header-line parser before commit 737e504 (kept for the regression witness only)
+
+`key_value_pair` used to look for `":\r\n"`, then `":\n"`, then `": "` in the *whole* remaining input
+(three `complete(take_until1(..))` alternatives): a value ending in `:` was read back as part of the key,
+and a later `Key: ` could swallow everything before it (finding D10c). -/
+namespace Pre737
+
+/-- `complete(take_until1(pat))` -/
+def takeUntil1C (pat i : Bytes) : PR Bytes :=
+  match splitOnSub pat i with
+  | none => .err
+  | some ([], _) => .err
+  | some (k, rest) => .ok k rest
+
+def kvKey (i : Bytes) : PR Bytes :=
+  match ((takeUntil1C [COLON, CR, LF] i).orElse fun _ =>
+         (takeUntil1C [COLON, LF] i).orElse fun _ => takeUntil1C [COLON, SP] i) with
+  | .ok k r => if validUtf8 k then .ok k r else .err
+  | x => x
+
+def kvPair (i : Bytes) : PR (Bytes × Bytes) :=
+  match kvKey i with
+  | .inc => .inc
+  | .err => .err
+  | .ok k r =>
+    match tagS [COLON] r with
+    | .inc => .inc
+    | .err => .err
+    | .ok _ r1 =>
+      match tagS [SP] r1 with
+      | .inc => .inc
+      | .ok _ r2 =>
+        match notLineEnding r2 with
+        | .inc => .inc
+        | .err => .err
+        | .ok v r3 =>
+          if validUtf8 v then
+            match lineEnding r3 with
+            | .inc => .inc
+            | .err => .err
+            | .ok _ r4 => .ok (k, v) r4
+          else .err
+      | .err =>
+        match lineEnding r1 with
+        | .inc => .inc
+        | .err => .err
+        | .ok _ r2 => .ok (k, []) r2
+
+end Pre737
 
 end Rpgp.Armor
